@@ -934,6 +934,11 @@ func (mpt *MerklePatriciaTrie) insertNode(oldNode Node, newNode Node) (Node, Key
 	}
 
 	newNode.SetOrigin(mpt.Version)
+	return mpt.storeNode(oldNode, newNode)
+}
+
+// storeNode stores newNode (in place of oldNode) under its hash as it is, origin included
+func (mpt *MerklePatriciaTrie) storeNode(oldNode Node, newNode Node) (Node, Key, error) {
 	ckey := newNode.GetHashBytes()
 	if err := mpt.db.PutNode(ckey, newNode); err != nil {
 		return nil, nil, err
@@ -1169,7 +1174,10 @@ func (mpt *MerklePatriciaTrie) mergeChanges(newRoot Key, changes []*NodeChange, 
 	}
 
 	for _, c := range changes {
-		if _, _, err := mpt.insertNode(c.Old, c.New); err != nil {
+		// the merged root refers to these nodes by their hashes, which cover the origin: a node that was
+		// created at another version (a node synced into the child with MergeDB) must keep it, stamping it
+		// with this trie's version would store it under a key nothing refers to
+		if _, _, err := mpt.storeNode(c.Old, c.New); err != nil {
 			return err
 		}
 	}
